@@ -73,6 +73,11 @@ def constructed(rng):
             out.append("toint %s %s" % (rng.choice(TYPES), G.fD(c, s)))
         for c in G.split_values(rng, s, 2):
             out.append("toint %s %s" % (rng.choice(TYPES), G.fD(c * rng.choice((1, -1)), s)))
+    # decision boundary of division-free divisibility tests (x * inverse(5^n) mod 2^w against floor((2^w - 1) / 5^n))
+    for c, n in G.modinv_boundary_all(rng):
+        for s in set((n, rng.randrange(1, 19))):
+            for sg in (1, -1):
+                out.append("toint %s %s" % (rng.choice(("i128", "i128", "u128", "i64", "u64", rng.choice(TYPES))), G.fD(sg * c, s)))
     out.append("fromint u128:%d" % M)
     out.append("fromint u128:%d" % (M + 1))
     out.append("fromint u128:%d" % ((1 << 128) - 1))
